@@ -2123,7 +2123,7 @@ pub fn swr_bits(prop: &str) -> u8 {
         "C01" => 1,
         "C02" => 2,
         "C03" => 4,
-        "C04" => 8 | 16,
+        "C04" => 16,
         "C05" => 1 | 4 | 8,
         "C06" => 1 | 4 | 32,
         "C09" => 1,
@@ -2658,7 +2658,7 @@ pub fn ctl_cases(r: &mut Rng, prop: &str, tier: &str) -> Vec<Case> {
     let (px, pd): (Proj, Proj) = match prop {
         "C01" => (p_regs(), p_mem()),
         "C03" => (Proj { pc: true, sp: true, ..NONE }, p_mem()),
-        "C04" => (Proj { cyc: true, ..NONE }, P_NONE),
+        "C04" => (Proj { mode: Mode::Timing, ..NONE }, P_NONE),
         "C05" => (Proj { r: false, dbg: 1, latch: false, mode: Mode::Unknown, ..FULL }, p_mem()),
         "C06" => (Proj { regs: true, sp: true, pc: true, ctl: true, ..NONE }, p_mem()),
         "C09" => (Proj { fmask: 0xFF, ..p_regs() }, p_mem()),
